@@ -9,9 +9,28 @@
      no_other_loop         (F30, stale_count_other_loop)           no_uncounted_eviction (F31, uncounted_placeholder)
      maxsize_pos           (F32, maxsize0_no_single_flight)        no_dead_placeholder  (F41, dead_placeholder_counted)
    and the `refuted` theorems show by concrete histories that none of them can be dropped. *)
-From AV Require Import Base Lru LruLockFacts LruDict LruProofs LruInv LruCount LruStep LruThms LruWitness.
+From AV Require Import Base Lru LruKey LruLockFacts LruDict LruProofs LruInv LruCount LruStep LruThms LruWitness.
 From AV Require Lock LockProofs.
 From Coq Require Import Sorting.Sorted.
+
+(* ---- "equal arguments": the key tuple built from (args, kwargs, typed) is the same for two calls iff they have the
+        same positional values, the same keyword names and values in the same order and - if typed - the same types of
+        positional AND keyword values; the numeric key of the machine (`Call c a` looks up key_of cf a, where a is the
+        code of the call in the catalogue call_of) identifies exactly these classes ---- *)
+Theorem C20_key_construction : forall ty c1 c2,
+  make_key ty c1 = make_key ty c2 <->
+  (map av (cpos c1) = map av (cpos c2) /\
+   map (fun na => (fst na, av (snd na))) (ckws c1) = map (fun na => (fst na, av (snd na))) (ckws c2) /\
+   (ty = true ->
+    map aty_of (cpos c1) = map aty_of (cpos c2) /\
+    map (fun na => aty_of (snd na)) (ckws c1) = map (fun na => aty_of (snd na)) (ckws c2))).
+Proof. exact make_key_spec. Qed.
+Print Assumptions C20_key_construction.
+
+Theorem C20_keys_identify_equal_calls : forall cf a b,
+  key_of cf a = key_of cf b <-> make_key (typed cf) (call_of a) = make_key (typed cf) (call_of b).
+Proof. intros cf a b. rewrite make_key_spec. exact (key_of_spec cf a b). Qed.
+Print Assumptions C20_keys_identify_equal_calls.
 
 (* ---- right value (unconditional) ---- *)
 Theorem C20_value_faithful : forall cf ops o s' v,
